@@ -7,7 +7,9 @@ PROP = {
     "level_text": ("Kernel-checked theorems over the C01 model with explicit fault arguments: a refused bucket array falls back to the existing "
                    "table and fails only when every bucket is full; wherever the migration to a larger table stops (any number of moved items, any "
                    "number of coexisting generations, repeatedly) the table invariant holds and the abstract contents are unchanged, so every "
-                   "element stays findable, is traversed once and can be removed. The real containers are driven with refused bucket arrays, refused "
+                   "element stays findable, is traversed once and can be removed. The sizing loop of pvAddGrow (first bucket count >= the next size whose capacity exceeds the count) is modelled "
+                   "(growLog): in every state, however overloaded by refused growths, an insertion never answers invalid_argument, falls back to the existing table while the array is refused, "
+                   "and once the array is granted reaches a capacity above the count and refines the abstract insertion (C11_overloaded_growth_reaches_capacity). The real containers are driven with refused bucket arrays, refused "
                    "pool buffers, throwing element copies and throwing hash functors; the model must reproduce every intermediate layout. The probe loop of pvAddNogrow over the index functions TRANSLATED from the headers (tools/trspecs/HashProbe.py) reports 'table is full' only when every bucket is full (C11_full_only_when_all_buckets_full_translated)."),
     "level_note": ("Trusted as C01. The point where a fault strikes inside the migration is reported by the harness as the number of items moved "
                    "(the model does not predict allocator internals, DESIGN.md 2.7); functor faults need extraCheckMode = nothing (O1)."),
@@ -21,6 +23,9 @@ PROP = {
         "Momo.HT.C11_remove_in_any_generation",
         "Momo.HT.C11_migration_completes",
         "Momo.HT.C11_later_insert_completes",
+        "Momo.HT.C11_overloaded_growth_reaches_capacity",
+        "Momo.HT.C11_insert_after_overload_never_invalid",
+        "Momo.HT.C11_invalid_only_if_capacity_stalls",
         "Momo.HT.C11_reserve_every_fault_partial",
         "Momo.HT.C11_history_partial",
         "Momo.HT.C11_history_full_false",
@@ -34,7 +39,10 @@ PROP = {
         {"name": "c11_chain_p48", "src": "c01_hash.cpp", "flags": ["-DVF_PART=0", "-DVF_FAULTS=1", "-DVF_PTRBITS=48", "-DMOMO_MEM_MANAGER_PTR_USEFUL_BIT_COUNT=48"]},
         {"name": "c11_chain_p32", "src": "c01_hash.cpp", "flags": ["-DVF_PART=0", "-DVF_FAULTS=1", "-DVF_PTRBITS=32", "-DMOMO_MEM_MANAGER_PTR_USEFUL_BIT_COUNT=32"]},
     ],
-    "rule": ("the C01 histories with a fault armed on 1/3 of insertions / reservations (refuse exactly the next bucket array, refuse the k-th other "
+    "rule": ("every fourth history of the chained / unlimited kinds (LimP4, LimP, LimP1, UnlimP) and of Open2N2<3> starts with the PERSISTENT-REFUSAL prologue: fresh keys, every bucket "
+             "array pvAddGrow asks for refused insertion after insertion until the count has passed the capacity of the next bucket count and of the one after it (UnlimP: 66 items in 4 "
+             "buckets, LimP<15>) or every bucket is full ('Hash table is full' accepted only then), then memory is back and the next insertion must grow the table to a capacity above the "
+             "count with every key found; each of these insertions is a non-trivial case. Then: the C01 histories with a fault armed on 1/3 of insertions / reservations (refuse exactly the next bucket array, refuse the k-th other "
              "allocation, throw from the k-th element copy, throw from the k-th hash call of slow-hash traits) and, when growth is imminent, a failure "
              "aimed inside the migration; a case is non-trivial when the operation ran with >= 2 table generations alive or right after a refused "
              "growth (counted per operation: distinct (history, step)). c11_cfg / c11_chain_p48 / _p32: the same under the added C01 configurations "
